@@ -163,6 +163,10 @@ func bodyClass(rs *ast.RangeStmt, next ast.Stmt) string {
 		if len(st.Lhs) == 1 && len(st.Rhs) == 1 {
 			if ce, ok := st.Rhs[0].(*ast.CallExpr); ok {
 				if id, ok := ce.Fun.(*ast.Ident); ok && id.Name == "append" && len(ce.Args) == 2 {
+					// what is collected must be the key or the value itself: an expression with a call could depend on the order
+					if !isRangeVar(rs, ce.Args[1]) {
+						return "collect-expr"
+					}
 					if es, ok := next.(*ast.ExprStmt); ok {
 						if c2, ok := es.X.(*ast.CallExpr); ok && strings.HasPrefix(exprText(c2.Fun), "sort.") &&
 							len(c2.Args) >= 1 && exprText(c2.Args[0]) == exprText(st.Lhs[0]) {
@@ -190,19 +194,38 @@ func bodyClass(rs *ast.RangeStmt, next ast.Stmt) string {
 					return "collect"
 				}
 			}
-			if _, ok := st.Lhs[0].(*ast.IndexExpr); ok {
+			if ix, ok := st.Lhs[0].(*ast.IndexExpr); ok {
+				// dst[key] = value with the loop's own key and value: distinct keys, nothing computed - the result is a
+				// function of the ranged map wherever the loop stands; anything else needs an argument of its own
+				if rs.Key != nil && exprText(ix.Index) == exprText(rs.Key) && isRangeVar(rs, ix.Index) && isRangeVar(rs, st.Rhs[0]) {
+					return "copy-entries"
+				}
 				return "mapset"
 			}
 		}
 	case *ast.ExprStmt:
 		if ce, ok := st.X.(*ast.CallExpr); ok {
-			if id, ok := ce.Fun.(*ast.Ident); ok && id.Name == "delete" {
+			if id, ok := ce.Fun.(*ast.Ident); ok && id.Name == "delete" && len(ce.Args) == 2 && isRangeVar(rs, ce.Args[1]) {
 				return "delete"
 			}
 			return "call:" + exprText(ce.Fun)
 		}
 	}
 	return "other"
+}
+
+// isRangeVar: e is the key or the value variable of the range statement
+func isRangeVar(rs *ast.RangeStmt, e ast.Expr) bool {
+	id, ok := e.(*ast.Ident)
+	if !ok || id.Name == "_" {
+		return false
+	}
+	for _, v := range []ast.Expr{rs.Key, rs.Value} {
+		if vi, ok := v.(*ast.Ident); ok && vi.Name == id.Name {
+			return true
+		}
+	}
+	return false
 }
 
 func qlistLines(ss []string) string {
